@@ -1,5 +1,5 @@
 use crate::distributions::*;
-use crate::functions::binom_coeff;
+use crate::functions::ln_gamma;
 
 /// Implements the [Binomial](https://en.wikipedia.org/wiki/https://en.wikipedia.org/wiki/Binomial_distribution)
 /// distribution with trials `n` and probability of success `p`.
@@ -266,10 +266,24 @@ impl Discrete for Binomial {
     /// function](https://en.wikipedia.org/wiki/Probability_mass_function) for the given Binomial
     /// distribution at `k`.
     ///
+    /// # Remarks
+    ///
+    /// Returns `0.` if `k` is not in `[0, n]`. The mass is evaluated in log space so that it does
+    /// not overflow for large `n`.
     fn pmf(&self, k: i64) -> f64 {
-        binom_coeff(self.n, k as u64) as f64
-            * self.p.powi(k as i32)
-            * (1. - self.p).powi((self.n - k as u64) as i32)
+        if k < 0 || k as u64 > self.n {
+            return 0.;
+        }
+        let (n, k) = (self.n as f64, k as f64);
+        if self.p == 0. {
+            return if k == 0. { 1. } else { 0. };
+        } else if self.p == 1. {
+            return if k == n { 1. } else { 0. };
+        }
+        (ln_gamma(n + 1.) - ln_gamma(k + 1.) - ln_gamma(n - k + 1.)
+            + k * self.p.ln()
+            + (n - k) * (-self.p).ln_1p())
+        .exp()
     }
 }
 
